@@ -120,14 +120,26 @@ def build_case(r, pfx, op, b2, flavour="dist", addr=None, small_payload=True, ic
                     stack.append(sub)
         buf = bytes(encode(ins, addr)) + buf[L:]
         dc = []
-    buf = buf[:L] + bytes([0x00, 0x00])  # NOPs after the instruction: lookahead decodes harmlessly
+    follower = b""
+    if r.random() < 0.5:
+        # hostile follower: the SAME prefix/opcode again with another register selector and other operand bytes. The
+        # decoder looks one instruction ahead (PRE fusion); whatever it learns there must not leak into this instruction
+        # (operand objects shared between instances of one opcode would).
+        k = (1 if pfx is not None else 0) + 1
+        tw = bytearray(buf[:L])
+        for j in range(k, L):
+            tw[j] = ((tw[j] & 0xF8) | ((tw[j] + 1) & 7)) if j == k else (tw[j] ^ 0x5A)
+        if L > k and dec(bytes(tw) + b"\x00\x00", addr + L) is not None:
+            follower = bytes(tw)
+    buf = buf[:L] + follower + bytes([0x00, 0x00])  # then NOPs: lookahead decodes harmlessly
     try:
         mn, ops = tok.parse(ins.render())
     except tok.TokError:
         mn, ops = ins.name(), []
     case = {"bytes": buf.hex(), "addr": addr, "flavour": flavour, "len": L,
             "pfx": pfx, "op": op, "b2": b2, "mn": mn,
-            "opc": getattr(ins, "opcode", None), "preb": getattr(ins, "_pre", None), "dontcare": dc}
+            "opc": getattr(ins, "opcode", None), "preb": getattr(ins, "_pre", None), "dontcare": dc,
+            "follower": bool(follower)}
     mem: dict[int, int] = {}
     regs = {}
     if flavour == "dist":
